@@ -518,7 +518,7 @@ def rule_r6(p, res):
 
 
 # rules of sibling properties over code paths this property's statement also quantifies over (DESIGN.md section 3, shared rules)
-ALSO = ['C02.R6', 'C20.R4']
+ALSO = ['C02.R6', 'C20.R4', 'C06.R2']
 
 RULES = [rule_r1, rule_r2, rule_r3, rule_r4, rule_r5, rule_r6]
 
